@@ -163,7 +163,11 @@ def scan_case(case, ctx):
             except Exception:  # noqa: BLE001
                 pass
             ctx.label("after_call_with_other_eps")
+        arg_keep = None if isinstance(arg, str) else (arg.clone() if isinstance(arg, torch.Tensor) else arg.copy())
         frames = sut(_run_fimo, case, motifs, arg)
+        if arg_keep is not None:
+            same_ = torch.equal(arg, arg_keep) if isinstance(arg, torch.Tensor) else bool((arg == arg_keep).all())
+            require(same_, "fimo-sequences-modified", "the caller's sequence array was changed by the scan")
         for n_, p_ in zip(names, motifs_np):
             require(torch.equal(motifs[n_], torch.tensor(p_)), "fimo-motif-modified", lambda: "the caller's PWM tensor %s was changed by the scan" % n_)
         require(isinstance(frames, list) and len(frames) == len(motifs_np), "fimo-n-frames", lambda: "%d frames for %d motifs" % (len(frames), len(motifs_np)))
